@@ -21,8 +21,17 @@ def mk_interp(ctx: Ctx, verifying: Sequence[str] = (), extra_inline: Sequence[st
     if extra_contracts:
         contracts.update(extra_contracts)
     it = Interp(ctx, contracts=contracts, inline=list(INLINE) + list(extra_inline), verifying=verifying, externals=torchmodel.externals)
-    if hook is not None:
-        it.external_hook = hook  # type: ignore[attr-defined]
+    hooks = [h for h in (hook if isinstance(hook, (list, tuple)) else [hook]) if h is not None]
+    if hooks:
+        def chained(interp: Any, name: str) -> Any:
+            out: Any = None
+            for h in hooks:
+                r = h(interp, name)
+                if r is not None:
+                    out = dict(out or {}, **r)
+            return out
+
+        it.external_hook = chained  # type: ignore[attr-defined]
     return it
 
 
